@@ -996,6 +996,11 @@ pub unsafe extern "C" fn SFileGetFileName(file: HANDLE, buffer: *mut c_char) -> 
         }
     };
 
+    // The caller's buffer is MAX_PATH (260) bytes by contract
+    if c_name.as_bytes_with_nul().len() > 260 {
+        set_last_error(ERROR_INSUFFICIENT_BUFFER);
+        return false;
+    }
     std::ptr::copy_nonoverlapping(c_name.as_ptr(), buffer, c_name.as_bytes_with_nul().len());
 
     set_last_error(ERROR_SUCCESS);
